@@ -105,7 +105,7 @@ ACCESSORS = ["states", "controls", "algebraics"]
 
 def check(case, ctx):
     sp = copy.deepcopy(case["spec"])
-    if any(c04.degenerate(c) for c in sp.get("constraints", [])):
+    if any(c04.degenerate(c, {d["name"] for d in sp["params"]}) for c in sp.get("constraints", [])):
         ctx.count("relation_collapses_symbolically")
         return []
     m = sp["method"]
